@@ -192,8 +192,14 @@ def resolve_bt(exe, bt):
 def replay_args(desc):
     """'one 1 100010 185503 1 4 0 0 16 0 2136 1 0 0 0 CAP 94 0 ...' -> argv list for c06_sweep"""
     f = desc.split()
-    if not f or f[0] != "one":
+    if not f:
         return None
+    if f[0] == "frames":
+        return f[:5]
+    if f[0] != "one":
+        return None
+    if len(f) > 19 and f[19] in ("DECODE", "TRUNC", "DAMAGE"):
+        return f[:21]
     return f[:19]
 
 
@@ -358,9 +364,18 @@ def inspectors(ctx, model, exe, problems):
         if rc != 0:
             problems.append(dict(kind="frames-harness-exit", rc=rc, err=err[-300:]))
         for l in out.split("\n"):
-            m = re.match(r"([FTDX]) (id=\S+ \S+) hex=(\S+) :: (I .*?)( consumed_first=.*)?$", l)
+            if l.startswith("FAULT "):
+                desc = l.split(" :: ")[-1]
+                mm = re.search(r"bt=(\S*)", l)
+                fn = resolve_bt(exe, mm.group(1)) if mm else []
+                ctx.violation(dict(family="inspector-harness", kind="memory-fault-at-fence", where=fn, desc=desc, argv=replay_args(desc)),
+                              what="memory fault while inspecting / decoding frames (%s) :: %s" % (",".join(fn[:3]), desc))
+                continue
+            m = re.match(r"([FTDX]) (id=\S+ \S+) hex=(\S+) :: (I fhs=\S+ gfh=\S+ ffcs=\S+ dbound=\S+ margin=\S+ fds=\S+ gfcs=\S+)(.*)$", l)
             if m:
-                items.append(m.groups())
+                g = list(m.groups())
+                g[4] = g[4] if g[4].strip() else None
+                items.append(tuple(g))
     mod = model.run(["I " + ("" if it[2] == "-" else it[2]) for it in items], timeout=1200)
     st = dict(valid_multiframe=0, truncated=0, damaged=0, inplace_ok=0, agree=0, unknown_size_frames=0, skippable_first=0)
     decode_fail = {}
